@@ -90,6 +90,19 @@ def _define():
             self.status = status
     _USER['UFlaky'] = UFlaky
 
+    class UFalsy(Exception):
+        """an exception object that is falsy (a container-like error with __len__)"""
+        def __len__(self):
+            return 0
+
+    class GFalsy(glom.GlomError):
+        def __bool__(self):
+            return False
+
+    class GTypeMatchSub(glom.matching.TypeMatchError):
+        pass
+    _USER['UFalsy'], _USER['GFalsy'], _USER['GTypeMatchSub'] = UFalsy, GFalsy, GTypeMatchSub
+
     for c in (UPlain, UAttr, UInitAttr, UKwOnly, UArity, UPrefix, UKeySub, UMulti, UTypeSub, UBase,
               GPlain, GAttr, GArity, GPrefix, GKwOnly, GPathSub, GMatchSub):
         _USER[c.__name__] = c
@@ -101,7 +114,7 @@ BUILTIN_NAMES = ['ValueError', 'KeyError', 'TypeError', 'IndexError', 'Attribute
 GLOM_NAMES = ['GlomError', 'PathAccessError', 'PathAssignError', 'CoalesceError', 'BadSpec', 'UnregisteredTarget', 'MatchError',
               'TypeMatchError', 'CheckError', 'PathDeleteError', 'FoldError']
 USER_NAMES = ['UPlain', 'UAttr', 'UInitAttr', 'UKwOnly', 'UArity', 'UPrefix', 'UKeySub', 'UMulti', 'UTypeSub', 'UBase',
-              'GPlain', 'GAttr', 'GArity', 'GPrefix', 'GKwOnly', 'GPathSub', 'GMatchSub', 'UTwinA', 'UTwinB', 'UTwinK', 'UFlaky']
+              'GPlain', 'GAttr', 'GArity', 'GPrefix', 'GKwOnly', 'GPathSub', 'GMatchSub', 'UTwinA', 'UTwinB', 'UTwinK', 'UFlaky', 'UFalsy', 'GFalsy', 'GTypeMatchSub']
 CATALOGUE = BUILTIN_NAMES + GLOM_NAMES + USER_NAMES
 # the classes a planted fault raises
 PLANTABLE = ['ValueError', 'KeyError', 'TypeError', 'IndexError', 'AttributeError', 'ZeroDivisionError', 'RuntimeError',
@@ -143,6 +156,8 @@ def make(name):
         e = c('boom', status=503)
     elif name == 'GPathSub':
         e = c(KeyError('k'), 'a.b', 1)
+    elif name == 'GTypeMatchSub':
+        e = c(int, str)
     elif name == 'GMatchSub':
         e = c('{} does not match {}', 1, 2)
     else:
